@@ -54,6 +54,16 @@ def draw_values(tensors, seed: int, profile: str):
         elif profile == "wide":
             re = rng.normal(size=t.shape) * 6.0
             im = rng.normal(size=t.shape) * 6.0
+        elif profile == "tiny":
+            # some tensors many orders of magnitude below one (positive values below machine epsilon after a
+            # non-negative parameterisation such as clamp / square)
+            kind = str(vs.get("k", ""))
+            direct = ("clamp" in kind) or ("square" in kind)  # the tensor's scale reaches the layer directly
+            k = float(rng.choice([0.0, 20.0] if direct else [0.0, 0.0, 8.0, 20.0]))
+            re = rng.normal(size=t.shape) * 10.0 ** (-k)
+            im = rng.normal(size=t.shape) * 10.0 ** (-k)
+            if "clamp" in kind:
+                re = np.abs(re)  # keep clamp(t) = t > 0 (tiny but positive) instead of an exact zero
         else:
             re = rng.normal(size=t.shape)
             im = rng.normal(size=t.shape)
